@@ -74,27 +74,40 @@ Section Transfer.
   Qed.
 End Transfer.
 
-(* the store: source and bystanders untouched, the new graphs are the partitions *)
-Lemma store_level st garm A gid_of L :
-  sget st garm = Some A -> wfb A = true -> generate_adms A = Ok L ->
-  ~ In garm (map gid_of (map fst L)) -> NoDup (map gid_of (map fst L)) ->
-  exists st', st_generate_adms st garm gid_of = Ok (st', map (fun dp => (fst dp, gid_of (fst dp))) L) /\
+(* the store: a call that returns has left the source and the bystanders untouched, and the new graphs are the
+   partitions.  Nothing is assumed of the caller's delegation_guids (a bad dictionary is rejected, see below);
+   uuid_fresh is about the ids uuid4 hands out for the delegation ids the caller did not mention. *)
+Lemma store_level st garm A supplied fresh st' dgs :
+  sget st garm = Some A -> wfb A = true ->
+  uuid_fresh garm supplied fresh (c_ids (catalog_delegations A)) ->
+  st_generate_adms st garm supplied fresh = (st', Ok dgs) ->
+  exists L, generate_adms A = Ok L /\
+    dgs = map (fun dp => (fst dp, gid_for supplied fresh (fst dp))) L /\
     sget st' garm = Some A /\
-    (forall d P, In (d, P) L -> sget st' (gid_of d) = Some P) /\
-    (forall k, ~ In k (map gid_of (map fst L)) -> sget st' k = sget st k).
+    (forall d P, In (d, P) L -> sget st' (gid_for supplied fresh d) = Some P) /\
+    (forall k, ~ In k (map snd dgs) -> sget st' k = sget st k).
 Proof.
-  intros HA Hw HL Hf Hn.
-  assert (Hne : gnodes A <> []).
-  { intros E. rewrite (empty_raises A E) in HL. discriminate. }
-  rewrite (generate_adms_spec A Hw Hne) in HL. inversion HL; subst L. clear HL.
-  assert (MF : map fst (map (fun d => (d, adm_spec A d)) (c_ids (catalog_delegations A))) = c_ids (catalog_delegations A))
-    by (rewrite map_map; simpl; apply map_id).
-  rewrite MF in Hf, Hn.
-  destruct (st_generate_adms_spec st garm A gid_of HA Hw Hne Hf Hn) as [st' [S1 [S2 [S3 S4]]]].
-  exists st'. rewrite MF. split; [rewrite map_map; simpl; exact S1|]. split; [exact S2|]. split.
+  intros HA Hw Hu Hrun.
+  destruct (st_generate_adms_ok_inv _ _ _ _ _ _ Hrun) as [Hne Hok]. rewrite (sview_sget _ _ _ HA) in Hne, Hok.
+  destruct (st_generate_adms_spec st garm A supplied fresh HA Hw Hne Hok Hu) as [st2 [S1 [S2 [S3 S4]]]].
+  rewrite S1 in Hrun. inversion Hrun; subst st' dgs. clear Hrun.
+  exists (map (fun d => (d, adm_spec A d)) (c_ids (catalog_delegations A))).
+  split; [apply generate_adms_spec; assumption|].
+  split; [rewrite map_map; reflexivity|]. split; [exact S2|]. split.
   - intros d P Hi. apply in_map_iff in Hi. destruct Hi as [d' [E Hi]]. inversion E; subst. apply S3. exact Hi.
-  - intros k Hk. apply S4. exact Hk.
+  - intros k Hk. apply S4. rewrite map_map in Hk. exact Hk.
 Qed.
+
+Lemma bad_guids_rejected st garm supplied fresh :
+  guids_ok garm supplied (c_ids (catalog_delegations (sview st garm))) = false ->
+  st_generate_adms st garm supplied fresh = (st, Err EQuery).
+Proof. apply st_generate_adms_rejects. Qed.
+
+(* guids_ok spelled out *)
+Lemma guids_ok_iff garm supplied ds :
+  guids_ok garm supplied ds = true <->
+  ~ In garm (supplied_for supplied ds) /\ NoDup (supplied_for supplied ds).
+Proof. unfold guids_ok. rewrite andb_true_iff, negb_true_iff, memb_false, nodupb_NoDup. tauto. Qed.
 
 (* ------------------------------------------------------------------ the gap: closure is one hop deep *)
 (* a -L1- b -L2- c, only a carries a delegation (capacity, id 1).  b is kept as the peer of a; b's other
@@ -169,24 +182,18 @@ Lemma ex_nonvacuous :
      map (fun dp => snd (rewrite_delegations (snd dp) 99)) L = [None; None] /\
      (* and raises on the aggregate model itself (node 8 holds two ids) *)
      snd (rewrite_delegations ex_A 99) = Some EQuery) /\
-  (* store level: fresh graph ids 101, 102 next to the ARM (100) and a bystander (50) *)
-  (exists st', st_generate_adms [(50, wit_A); (100, ex_A)] 100 (fun d => 100 + d) = Ok (st', [(1, 101); (2, 102)]) /\
-     map fst st' = [50; 100; 101; 102] /\ sget st' 100 = Some ex_A /\ sget st' 50 = Some wit_A).
+  (* store level next to a bystander graph (50): id 1 gets the supplied graph id 101, id 2 a generated one (102);
+     supplying the ARM's own id (100), or one id twice, is rejected and nothing is touched *)
+  (exists st', st_generate_adms [(50, wit_A); (100, ex_A)] 100 [(1, 101); (7, 100)] (fun d => 100 + d) = (st', Ok [(1, 101); (2, 102)]) /\
+     map fst st' = [50; 100; 101; 102] /\ sget st' 100 = Some ex_A /\ sget st' 50 = Some wit_A /\
+     uuid_fresh 100 [(1, 101); (7, 100)] (fun d => 100 + d) (c_ids (catalog_delegations ex_A))) /\
+  st_generate_adms [(50, wit_A); (100, ex_A)] 100 [(2, 100)] (fun d => 100 + d) = ([(50, wit_A); (100, ex_A)], Err EQuery) /\
+  st_generate_adms [(50, wit_A); (100, ex_A)] 100 [(1, 77); (2, 77)] (fun d => 100 + d) = ([(50, wit_A); (100, ex_A)], Err EQuery).
 Proof.
   split; [vm_compute; reflexivity|]. split.
   - eexists. split; [vm_compute; reflexivity|]. vm_compute. repeat split; reflexivity.
-  - eexists. split; [vm_compute; reflexivity|]. vm_compute. repeat split; reflexivity.
-Qed.
-
-(* ------------------------------------------------------------------ the freshness hypothesis is needed *)
-(* delegation_guids mapping a delegation id to the aggregate model's own graph id: the "clone" replaces the
-   source and the per-id rewriting and the removal are applied to the source itself. *)
-Lemma source_untouched_needs_fresh_ids_refuted :
-  exists st garm A gid_of st' dgs,
-    sget st garm = Some A /\ wfb A = true /\ In garm (map gid_of (c_ids (catalog_delegations A))) /\
-    st_generate_adms st garm gid_of = Ok (st', dgs) /\ sget st' garm <> Some A.
-Proof.
-  exists [(100, ex_A)], 100, ex_A, (fun d => if d =? 1 then 100 else 200).
-  eexists. eexists. split; [reflexivity|]. split; [vm_compute; reflexivity|]. split; [vm_compute; tauto|].
-  split; [vm_compute; reflexivity|]. vm_compute. discriminate.
+  - split; [|split; vm_compute; reflexivity].
+    eexists. split; [vm_compute; reflexivity|]. split; [reflexivity|]. split; [reflexivity|]. split; [reflexivity|].
+    vm_compute. split; [intros [H|[]]; discriminate|]. split; [constructor; [intros []|constructor]|].
+    intros d [<-|[]] [H|[]]. discriminate.
 Qed.
